@@ -23,23 +23,23 @@ func init() {
 
 // tabled explicit panic sites: function -> reason it cannot be driven by peer data (or is contained)
 var panicSites = map[string]string{
-	"internal/bip32.DeriveScalar":                  "hardened index: caller-supplied parameter of a local API (Derive), not network data",
-	"internal/ot.NewRandomOTReceiver":              "blake3.NewKeyed fails only for a key that is not 32 bytes; the nonce is produced locally with that length",
-	"internal/ot.NewRandomOTSender":                "same as NewRandomOTReceiver",
-	"pkg/hash.(*Hash).Sum":                         "reading from an extendable-output hash does not fail",
-	"pkg/math/curve.MakeInt":                       "MarshalBinary of a scalar does not fail",
-	"pkg/math/curve.secp256k1CastScalar":           "mixed-curve programming error; reachable with a nil interface from decoded data, but only on the handler goroutine (contained by PANIC-1)",
-	"pkg/math/curve.secp256k1CastPoint":            "same as secp256k1CastScalar",
-	"pkg/math/sample.mustReadBits":                 "255 consecutive failures of the random source",
-	"pkg/math/sample.ModN":                         "same as mustReadBits",
-	"pkg/math/sample.UnitModN":                     "same as mustReadBits",
-	"pkg/math/sample.QNR":                          "same as mustReadBits",
-	"pkg/math/sample.Scalar":                       "same as mustReadBits",
-	"pkg/math/sample.ScalarUnit":                   "same as mustReadBits",
-	"pkg/math/polynomial.(*Polynomial).Evaluate":   "evaluation at zero would leak the secret: party identifiers are validated non-zero scalars? (local data: own polynomial and the session's party list)",
-	"pkg/protocol.(*TwoPartyHandler).advance":      "cbor.Marshal of an own, well-formed round message; on the handler goroutine (contained)",
-	"pkg/protocol.(*MultiHandler).finalize":        "cbor.Marshal of an own, well-formed round message; on the handler goroutine (contained)",
-	"pkg/paillier.(PublicKey).EncWithNonce":        "plaintext out of range: callers pass own values or range-checked proof responses; verifier-side uses sit on the handler goroutine (contained)",
+	"internal/bip32.DeriveScalar":                "hardened index: caller-supplied parameter of a local API (Derive), not network data",
+	"internal/ot.NewRandomOTReceiver":            "blake3.NewKeyed fails only for a key that is not 32 bytes; the nonce is produced locally with that length",
+	"internal/ot.NewRandomOTSender":              "same as NewRandomOTReceiver",
+	"pkg/hash.(*Hash).Sum":                       "reading from an extendable-output hash does not fail",
+	"pkg/math/curve.MakeInt":                     "MarshalBinary of a scalar does not fail",
+	"pkg/math/curve.secp256k1CastScalar":         "mixed-curve programming error; reachable with a nil interface from decoded data, but only on the handler goroutine (contained by PANIC-1)",
+	"pkg/math/curve.secp256k1CastPoint":          "same as secp256k1CastScalar",
+	"pkg/math/sample.mustReadBits":               "255 consecutive failures of the random source",
+	"pkg/math/sample.ModN":                       "same as mustReadBits",
+	"pkg/math/sample.UnitModN":                   "same as mustReadBits",
+	"pkg/math/sample.QNR":                        "same as mustReadBits",
+	"pkg/math/sample.Scalar":                     "same as mustReadBits",
+	"pkg/math/sample.ScalarUnit":                 "same as mustReadBits",
+	"pkg/math/polynomial.(*Polynomial).Evaluate": "evaluation at zero would leak the secret: party identifiers are validated non-zero scalars? (local data: own polynomial and the session's party list)",
+	"pkg/protocol.(*TwoPartyHandler).advance":    "cbor.Marshal of an own, well-formed round message; on the handler goroutine (contained)",
+	"pkg/protocol.(*MultiHandler).finalize":      "cbor.Marshal of an own, well-formed round message; on the handler goroutine (contained)",
+	"pkg/paillier.(PublicKey).EncWithNonce":      "plaintext out of range: callers pass own values or range-checked proof responses; verifier-side uses sit on the handler goroutine (contained)",
 }
 
 var nilRejecting = []string{"arith.IsValidBigModN", "arith.IsValidNatModN", "arith.IsInInterval", "== nil", "!= nil", ".IsValid", "ValidateCiphertexts", ".Validate", "IsIdentity", "IsZero"}
@@ -135,7 +135,7 @@ func runC05(c *Ctx, r *Run) {
 		guarded := false
 		allInstrs(target, func(x ssa.Instruction) {
 			cal := staticCallee(x)
-			if cal == nil || cal.Name() != "abort" {
+			if cal == nil || canonFnName(cal) != "abort" {
 				return
 			}
 			reaches = true
